@@ -22,7 +22,8 @@ def _run_each(ctx, exe, bound, budget, env, label, cost):
     t_end = time.time() + budget
     for n in names:
         left = max(3, int(t_end - time.time()))
-        args = ['--bound', str(bound), '--scenario', n, '--jobs', str(vlib.NJOBS), '--outdir', vlib.OUT, '--deadline', str(left)]
+        jobs = max(2, min(vlib.NJOBS, cost.get(n, 10**9) // 60))   # do not fork 16 workers for a few dozen schedules
+        args = ['--bound', str(bound), '--scenario', n, '--jobs', str(jobs), '--outdir', vlib.OUT, '--deadline', str(left)]
         ctx.run_engine(exe, args, label='%s.%s' % (label, n), timeout=left + 600, env=env)
 # measured number of schedules in the quick tier, used only to order the configurations
 COST = dict(mask_array_g1_in2=18, counter_array_g1_in2=18, mask_array_g2=90, counter_array_g2=94, mask_hash_g3=132, counter_hash_g3=132,
